@@ -273,7 +273,7 @@ Lemma hrel_some_inv : forall g p r, hrel g p r None -> r = None.
 Proof. intros g p [r|] H; [destruct H as [H _]; discriminate | reflexivity]. Qed.
 
 Lemma addr_of_nk : forall c p k, addr_of c p (nk k) = addr_of c p k.
-Proof. intros. unfold addr_of, nk. destruct (k =? 0); reflexivity. Qed.
+Proof. intros. unfold addr_of, nk. destruct (k =? 0) eqn:E0; [reflexivity|]. destruct (k =? 2) eqn:E2; reflexivity. Qed.
 
 (* ---- the monitor's table of reservations follows Relay.rsvp through a step --------------------- *)
 Lemma h1_rel : forall c g s m t, coupled c g s m ->
